@@ -96,6 +96,89 @@ pub struct Res {
     pub static_ss: bool,
     /// the (first) storage keyword is written twice (`static static`, `extern extern`): accepted
     pub dup_kw: bool,
+    /// spelling only (wave 5): how the same declaration can be written without changing what is bound
+    pub sp: Spell,
+}
+
+/// Spellings that must not change a single slot (flags `C T U x<n> F<n> N l L`)
+#[derive(Clone, Copy, Debug, PartialEq, Default)]
+pub struct Spell {
+    /// `C` the keyword `const` is written on the declaration (an extern global is const anyway)
+    pub const_kw: bool,
+    /// `T` the object type is written through `typedef <type> T_<name>;`
+    pub typedefd: bool,
+    /// `U` the array is part of a typedef: `typedef <type> TA_<name>[len]; TA_<name> name;` (one declarator only).
+    /// The type checker looks the register class up on the declaration's BASE type, which is an array here:
+    /// every `register(..)` on such a declarator is rejected (`InvalidRegisterAnnotation`).
+    pub typedef_arr: bool,
+    /// `x<n>` the array length is a constant expression: 0 `[len + 0]`, 1 `[len * 1u]`, 2 a named constant
+    /// `static const uint N_<name> = len;` declared just before
+    pub len_expr: Option<u32>,
+    /// `F<n>` what an `o` entry (a root definition that is never bound) is: 0 struct, 1 enum, 2 function prototype
+    /// followed by its definition, 3 function definition, 4 typedef (no root definition at all)
+    pub other_form: u32,
+    /// `N` (with n) the namespace is nested: `namespace NS { namespace IN { .. } }`
+    pub nested_ns: bool,
+    /// `l` written after the entry point functions, `L` after the Pipeline blocks (2). Every later entry is at least
+    /// as late (request order = source order); such a declaration is not mentioned in any function.
+    pub late: u32,
+    /// `M<n>` (not a mere spelling; cbuffer only) the first member carries an annotation: 0 `: register(b0)`,
+    /// 1 `: TEXCOORD` -- both rejected (`register() is not allowed here` / `semantic is not allowed here`)
+    pub member_ann: Option<u32>,
+}
+
+/// the compile() options next to the target: `<target>[+<B|L|S|D>...]`
+#[derive(Clone, Copy, Debug, PartialEq)]
+pub struct Cfg {
+    pub tgt: Tgt,
+    /// `B` `support_buffer_address(true)` whatever the target is (DirectX / Metal: compile must refuse)
+    pub ba: bool,
+    /// `L` validate_layout_consistency(true), `S` source_info(true), `D` two user defines: none of them may move a slot
+    pub layout: bool,
+    pub srcinfo: bool,
+    pub defines: bool,
+    /// `Q` in no-pipeline mode a pipeline name is given as well (`pipeline_name(Some("Q_none"))`, a name no pipeline
+    /// has): no-pipeline mode builds the one unselected module whatever the name says
+    pub np_name: bool,
+}
+
+impl Cfg {
+    pub fn plain(tgt: Tgt) -> Cfg {
+        Cfg { tgt, ba: false, layout: false, srcinfo: false, defines: false, np_name: false }
+    }
+    /// the parameter set the property speaks of, `None` = buffer addresses requested on a target without them
+    pub fn eff(&self) -> Option<Tgt> {
+        match (self.ba, self.tgt) {
+            (false, t) => Some(t),
+            (true, Tgt::Vk) | (true, Tgt::VkBa) => Some(Tgt::VkBa),
+            (true, _) => None,
+        }
+    }
+    pub fn show(&self) -> String {
+        let mut s = self.tgt.name().to_string();
+        for (on, c) in [(self.ba, 'B'), (self.layout, 'L'), (self.srcinfo, 'S'), (self.defines, 'D'), (self.np_name, 'Q')] {
+            if on {
+                s.push('+');
+                s.push(c);
+            }
+        }
+        s
+    }
+    pub fn parse(s: &str) -> Option<Cfg> {
+        let mut it = s.split('+');
+        let mut c = Cfg::plain(Tgt::parse(it.next()?)?);
+        for o in it {
+            match o {
+                "B" => c.ba = true,
+                "L" => c.layout = true,
+                "S" => c.srcinfo = true,
+                "D" => c.defines = true,
+                "Q" => c.np_name = true,
+                _ => return None,
+            }
+        }
+        Some(c)
+    }
 }
 
 /// ill-formed attributes: (source text, what the type checker names in its message)
@@ -130,6 +213,14 @@ pub struct Pipe {
     pub uses: Vec<usize>,
     /// the pipeline is built from the entry points of this earlier pipeline of the same kind
     pub share: Option<usize>,
+    /// how `DefaultBindGroup = d` is written (letters after the kind): `f` as the first property of the block,
+    /// `x` as `d + 0`, `h` in hexadecimal, `k` through a named constant `static const uint K_<name> = d;`
+    pub dspell: String,
+    /// kind `m`: a mesh shader + pixel shader pipeline (`graphics` is set as well; the uses are split between the two
+    /// stages as for `g`)
+    pub mesh: bool,
+    /// kind `v` / `p`: a graphics pipeline with a vertex shader only / a pixel shader only (`graphics` is set as well)
+    pub single: Option<char>,
 }
 
 #[derive(Clone, Debug, PartialEq)]
@@ -191,6 +282,16 @@ fn show_res(r: &Res) -> String {
     if is_static && r.static_ss { flags.push("q".into()); }
     if r.unsized_arr { flags.push("z".into()); }
     if r.dim2 { flags.push("m".into()); }
+    if !r.joined {
+        if r.sp.const_kw { flags.push("C".into()); }
+        if r.sp.typedefd { flags.push("T".into()); }
+        if r.sp.typedef_arr { flags.push("U".into()); }
+        if r.sp.nested_ns { flags.push("N".into()); }
+        if r.sp.other_form > 0 { flags.push(format!("F{}", r.sp.other_form)); }
+    }
+    if let Some(n) = r.sp.len_expr { flags.push(format!("x{}", n)); }
+    if let Some(n) = r.sp.member_ann { flags.push(format!("M{}", n)); }
+    match r.sp.late { 0 => {} 1 => flags.push("l".into()), _ => flags.push("L".into()) }
     format!("{}={}~{}", r.name, decl_text, flags.join("."))
 }
 
@@ -216,6 +317,7 @@ fn parse_res(s: &str) -> Option<Res> {
         groupshared: false,
         static_ss: false,
         dup_kw: false,
+        sp: Spell::default(),
     };
     let on = |t: &str| -> Option<Option<u32>> { if t == "-" { Some(None) } else { t.parse().ok().map(Some) } };
     for f in flags.split('.').filter(|f| !f.is_empty()) {
@@ -235,6 +337,16 @@ fn parse_res(s: &str) -> Option<Res> {
             "G" => r.groupshared = true,
             "q" => r.static_ss = true,
             "Y" => r.extra.push(Ann::Semantic),
+            "C" => r.sp.const_kw = true,
+            "T" => r.sp.typedefd = true,
+            "U" => r.sp.typedef_arr = true,
+            "N" => r.sp.nested_ns = true,
+            "M0" => r.sp.member_ann = Some(0),
+            "M1" => r.sp.member_ann = Some(1),
+            "l" => r.sp.late = 1,
+            "L" => r.sp.late = 2,
+            f if f.starts_with('x') => r.sp.len_expr = Some(f[1..].parse().ok().filter(|n| *n < 3)?),
+            f if f.starts_with('F') => r.sp.other_form = f[1..].parse().ok().filter(|n| *n >= 1 && *n <= 4)?,
             "s" => {
                 decl = match decl {
                     Decl::Global { set, ss: false, kind: Some(kind), len } => Decl::StaticObject { set, kind, len },
@@ -268,6 +380,12 @@ fn base_of(r: &Res) -> Option<(&'static str, bool)> {
     }
 }
 
+impl Res {
+    fn decl_len(&self) -> Option<u32> {
+        entry_len(self)
+    }
+}
+
 /// index of the first declarator of the declaration that entry `i` is written in
 pub fn head_of(res: &[Res], i: usize) -> usize {
     let mut h = i;
@@ -281,6 +399,17 @@ pub fn head_of(res: &[Res], i: usize) -> usize {
 /// type or storage, nothing before it) starts its own declaration; a further declarator has the declaration-level
 /// facts of the first one and spells a group of its own only as a register space.
 pub fn normalise(res: &mut [Res]) {
+    // a typedef'd array type stands for the whole declaration: only on a declaration with one declarator (judged on
+    // the raw `j` flag of the next entry), whose own shape is one sized array layer
+    for i in 0..res.len() {
+        let arr = match &res[i].decl {
+            Decl::Global { kind: Some(_), len: Some(_), ss: false, .. } | Decl::StaticObject { len: Some(_), .. } => true,
+            _ => false,
+        };
+        if res[i].joined || !arr || res[i].unsized_arr || res[i].dim2 || (i + 1 < res.len() && res[i + 1].joined) {
+            res[i].sp.typedef_arr = false;
+        }
+    }
     for i in 0..res.len() {
         if !res[i].joined {
             continue;
@@ -298,8 +427,43 @@ pub fn normalise(res: &mut [Res]) {
         res[i].extern_kw = res[h].extern_kw;
         res[i].groupshared = res[h].groupshared;
         res[i].dup_kw = res[h].dup_kw;
+        res[i].sp.const_kw = res[h].sp.const_kw;
+        res[i].sp.typedefd = res[h].sp.typedefd;
+        res[i].sp.nested_ns = res[h].sp.nested_ns;
+        res[i].sp.typedef_arr = false;
+    }
+    // later and later: request order = source order
+    let mut cur = 0;
+    for i in 0..res.len() {
+        if res[i].joined {
+            res[i].sp.late = res[head_of(res, i)].sp.late;
+        } else {
+            cur = std::cmp::max(cur, res[i].sp.late);
+            res[i].sp.late = cur;
+        }
     }
     for r in res.iter_mut() {
+        if base_of(r).is_none() {
+            r.sp.const_kw = false;
+            r.sp.typedefd = false;
+        }
+        if matches!(&r.decl, Decl::StaticObject { .. }) {
+            // `static const T x;` has no initialiser: the Metal exporter refuses it (UninitializedConstant)
+            r.sp.const_kw = false;
+        }
+        if !matches!(&r.decl, Decl::Other) {
+            r.sp.other_form = 0;
+        }
+        if !matches!(&r.decl, Decl::CBuffer(_)) {
+            r.sp.member_ann = None;
+        }
+        if !r.ns {
+            r.sp.nested_ns = false;
+        }
+        let has_len = matches!(&r.decl, Decl::Global { kind: Some(_), len: Some(_), .. } | Decl::StaticObject { len: Some(_), .. });
+        if !has_len || r.unsized_arr {
+            r.sp.len_expr = None;
+        }
         if !matches!(&r.decl, Decl::StaticObject { .. }) {
             r.groupshared = false;
             r.static_ss = false;
@@ -316,10 +480,11 @@ pub fn normalise(res: &mut [Res]) {
 fn show_pipe(p: &Pipe) -> String {
     let uses: Vec<String> = p.uses.iter().map(|u| u.to_string()).collect();
     format!(
-        "{}:{}:{}{}:{}",
+        "{}:{}:{}{}{}:{}",
         p.name,
         p.dflt.map(|d| d.to_string()).unwrap_or_else(|| "-".into()),
-        if p.graphics { "g" } else { "c" },
+        if let Some(c) = p.single { if c == 'v' { "v" } else { "p" } } else if p.mesh { "m" } else if p.graphics { "g" } else { "c" },
+        p.dspell,
         p.share.map(|k| format!("={}", k)).unwrap_or_default(),
         uses.join(".")
     )
@@ -334,32 +499,38 @@ fn parse_pipe(s: &str) -> Option<Pipe> {
         Some((k, j)) => (k, Some(j.parse::<usize>().ok()?)),
         None => (f[2], None),
     };
+    if !kind[kind.len().min(1)..].chars().all(|c| "fxhk".contains(c)) {
+        return None;
+    }
     Some(Pipe {
         name: f[0].to_string(),
         dflt: if f[1] == "-" { None } else { Some(f[1].parse().ok()?) },
-        graphics: match kind { "c" => false, "g" => true, _ => return None },
+        graphics: match kind.chars().next() { Some('c') => false, Some('g') | Some('m') | Some('v') | Some('p') => true, _ => return None },
+        mesh: kind.starts_with('m'),
+        single: kind.chars().next().filter(|c| *c == 'v' || *c == 'p'),
+        dspell: kind[1..].to_string(),
         share,
         uses: f[3].split('.').filter(|u| !u.is_empty()).map(|u| u.parse().ok()).collect::<Option<Vec<usize>>>()?,
     })
 }
 
-pub fn request(tgt: Tgt, mode: &Mode, p: &Prog) -> String {
+pub fn request(tgt: Cfg, mode: &Mode, p: &Prog) -> String {
     let pipes: Vec<String> = p.pipes.iter().map(show_pipe).collect();
     let res: Vec<String> = p.res.iter().map(show_res).collect();
     format!(
         "C06.compile\t{}\t{}\t{}\t{}",
-        tgt.name(),
+        tgt.show(),
         mode.show(),
         if pipes.is_empty() { "-".to_string() } else { pipes.join(";") },
         res.join(";")
     )
 }
 
-pub fn parse_request(f: &[&str]) -> Option<(Tgt, Mode, Prog)> {
+pub fn parse_request(f: &[&str]) -> Option<(Cfg, Mode, Prog)> {
     if f.len() != 5 || f[0] != "C06.compile" {
         return None;
     }
-    let tgt = Tgt::parse(f[1])?;
+    let tgt = Cfg::parse(f[1])?;
     let mode = if f[2] == "all" {
         Mode::All
     } else if f[2] == "nopipeline" {
@@ -488,12 +659,30 @@ fn anns_text(r: &Res, class: char) -> String {
     s
 }
 
+fn len_text(r: &Res, n: u32) -> String {
+    match r.sp.len_expr {
+        Some(0) => format!("{} + 0", n),
+        Some(1) => format!("{} * 1u", n),
+        Some(_) => format!("N_{}", r.name),
+        None => n.to_string(),
+    }
+}
+
+fn entry_len(r: &Res) -> Option<u32> {
+    match &r.decl {
+        Decl::Global { len, .. } | Decl::StaticObject { len, .. } => *len,
+        _ => None,
+    }
+}
+
 fn declarator(r: &Res, len: Option<u32>) -> String {
     let mut s = r.name.clone();
     if r.unsized_arr {
         s.push_str("[]");
     } else if let Some(n) = len {
-        s.push_str(&format!("[{}]", n));
+        if !r.sp.typedef_arr {
+            s.push_str(&format!("[{}]", len_text(r, n)));
+        }
         if r.dim2 {
             s.push_str("[2]");
         }
@@ -517,18 +706,30 @@ fn init_declarator(r: &Res) -> String {
 
 pub fn source(p: &Prog) -> String {
     let mut s = String::from("struct CbS { float4 v; };\n");
+    if p.pipes.iter().any(|x| x.mesh) {
+        s.push_str("struct MeshV { float4 position : SV_Position; };\n");
+    }
+    let (mut late1, mut late2) = (String::new(), String::new());
     let mut i = 0;
     while i < p.res.len() {
         let r = &p.res[i];
         let mut line = String::new();
         let mut consumed = 1;
         match &r.decl {
-            Decl::Other => line.push_str(&format!("struct {} {{ int x; }};", r.name)),
+            Decl::Other => line.push_str(&match r.sp.other_form {
+                1 => format!("enum {} {{ {}_A }};", r.name, r.name),
+                // (a prototype alone is refused by the exporters: FunctionNotDefined)
+                2 => format!("void {}(int x); void {}(int x) {{}}", r.name, r.name),
+                3 => format!("void {}(int x) {{}}", r.name),
+                4 => format!("typedef int {};", r.name),
+                _ => format!("struct {} {{ int x; }};", r.name),
+            }),
             Decl::CBuffer(_) => {
                 // one to three members: members are not root definitions and take nothing
                 let extra = ["", " float2 pad_a[2];", " float2 pad_a[2]; uint pad_b;"][(r.name.bytes().last().unwrap_or(0) % 3) as usize];
+                let member = match r.sp.member_ann { Some(0) => " : register(b0)", Some(_) => " : TEXCOORD", None => "" };
                 line.push_str(
-                    &format!("{}cbuffer {}{} {{ float4 {}_v;{} }}", attrs_text(r), r.name, anns_text(r, 'b'), r.name, extra)
+                    &format!("{}cbuffer {}{} {{ float4 {}_v{};{} }}", attrs_text(r), r.name, anns_text(r, 'b'), r.name, member, extra)
                         .replace("pad_", &format!("{}_pad_", r.name)),
                 );
             }
@@ -548,26 +749,56 @@ pub fn source(p: &Prog) -> String {
                 let is_static = matches!(&r.decl, Decl::StaticObject { .. });
                 let first = if !is_static { "" } else if r.groupshared { "groupshared " } else { "static " };
                 let second = if r.extern_kw { "extern " } else { "" };
-                let storage = format!("{}{}{}", if r.dup_kw { if is_static { first } else { second } } else { "" }, first, second);
-                line.push_str(&format!("{}{}{} {}", attrs_text(r), storage, spelling(k), init_declarator(r)));
+                let mut storage = format!("{}{}{}", if r.dup_kw { if is_static { first } else { second } } else { "" }, first, second);
+                if r.sp.const_kw {
+                    storage = if r.name.bytes().last().unwrap_or(0) % 2 == 0 { format!("const {}", storage) } else { format!("{}const ", storage) };
+                }
                 while i + consumed < p.res.len() && p.res[i + consumed].joined {
-                    line.push_str(&format!(", {}", init_declarator(&p.res[i + consumed])));
                     consumed += 1;
+                }
+                // what has to be declared before: named array lengths, the typedefs
+                for d in &p.res[i..i + consumed] {
+                    if let (Some(2), Some(n)) = (d.sp.len_expr, entry_len(d)) {
+                        line.push_str(&format!("static const uint N_{} = {}; ", d.name, n));
+                    }
+                }
+                let mut ty = spelling(k).to_string();
+                if r.sp.typedefd {
+                    line.push_str(&format!("typedef {} T_{}; ", ty, r.name));
+                    ty = format!("T_{}", r.name);
+                }
+                if let (true, Some(n)) = (r.sp.typedef_arr, entry_len(r)) {
+                    line.push_str(&format!("typedef {} TA_{}[{}]; ", ty, r.name, len_text(r, n)));
+                    ty = format!("TA_{}", r.name);
+                }
+                line.push_str(&format!("{}{}{} {}", attrs_text(r), storage, ty, init_declarator(r)));
+                for d in &p.res[i + 1..i + consumed] {
+                    line.push_str(&format!(", {}", init_declarator(d)));
                 }
                 line.push(';');
             }
         }
-        if r.ns {
-            s.push_str(&format!("namespace NS {{ {} }}\n", line));
+        let line = if !r.ns {
+            format!("{}\n", line)
+        } else if r.sp.nested_ns {
+            format!("namespace NS {{ namespace IN {{ {} }} }}\n", line)
         } else {
-            s.push_str(&line);
-            s.push('\n');
+            format!("namespace NS {{ {} }}\n", line)
+        };
+        match r.sp.late {
+            0 => s.push_str(&line),
+            1 => late1.push_str(&line),
+            _ => late2.push_str(&line),
         }
         i += consumed;
     }
     let use_stmt = |idx: usize| -> String {
         let Some(r) = p.res.get(idx) else { return String::new() };
-        let q = if r.ns { "NS::" } else { "" };
+        if r.sp.late > 0 {
+            // declared after the functions
+            return String::new();
+        }
+        let q = if !r.ns { "" } else if r.sp.nested_ns { "NS::IN::" } else { "NS::" };
         match &r.decl {
             Decl::CBuffer(_) => format!("    {}{}_v;\n", q, r.name),
             Decl::Global { kind: Some(_), len, .. } => {
@@ -588,7 +819,7 @@ pub fn source(p: &Prog) -> String {
     // a pipeline shares the entry points of an earlier pipeline of the same kind that has its own
     let owner = |k: usize| -> usize {
         match p.pipes[k].share {
-            Some(j) if j < k && p.pipes[j].share.is_none() && p.pipes[j].graphics == p.pipes[k].graphics => j,
+            Some(j) if j < k && p.pipes[j].share.is_none() && p.pipes[j].graphics == p.pipes[k].graphics && p.pipes[j].mesh == p.pipes[k].mesh && p.pipes[j].single == p.pipes[k].single => j,
             _ => k,
         }
     };
@@ -596,17 +827,33 @@ pub fn source(p: &Prog) -> String {
         if owner(k) != k {
             continue;
         }
-        if pipe.graphics {
-            let vs: String = pipe.uses.iter().step_by(2).map(|u| use_stmt(*u)).collect();
+        if pipe.graphics && pipe.mesh {
+            let ms: String = pipe.uses.iter().step_by(2).map(|u| use_stmt(*u)).collect();
             let ps: String = pipe.uses.iter().skip(1).step_by(2).map(|u| use_stmt(*u)).collect();
             s.push_str(&format!(
-                "void vs{}(uint vid : SV_VertexID, out float4 o_pos : SV_Position) {{\n{}    o_pos = float4(0, 0, 0, 1);\n}}\n",
-                k, vs
+                "[numthreads(4, 1, 1)]\n[outputtopology(\"triangle\")]\nvoid ms{}(uint3 dtid : SV_DispatchThreadID, out vertices MeshV o_v[4], out indices uint3 o_t[4]) {{\n{}    SetMeshOutputCounts(4, 4);\n    MeshV v;\n    v.position = float4(0, 0, 0, 1);\n    o_v[dtid.x] = v;\n    o_t[dtid.x] = uint3(0, 1, 2);\n}}\n",
+                k, ms
             ));
             s.push_str(&format!(
                 "float4 ps{}(float4 i_pos : SV_Position) : SV_Target0 {{\n{}    return float4(0, 0, 0, 0);\n}}\n",
                 k, ps
             ));
+        } else if pipe.graphics {
+            let all: String = pipe.uses.iter().map(|u| use_stmt(*u)).collect();
+            let vs: String = if pipe.single.is_some() { all.clone() } else { pipe.uses.iter().step_by(2).map(|u| use_stmt(*u)).collect() };
+            let ps: String = if pipe.single.is_some() { all } else { pipe.uses.iter().skip(1).step_by(2).map(|u| use_stmt(*u)).collect() };
+            if pipe.single != Some('p') {
+                s.push_str(&format!(
+                    "void vs{}(uint vid : SV_VertexID, out float4 o_pos : SV_Position) {{\n{}    o_pos = float4(0, 0, 0, 1);\n}}\n",
+                    k, vs
+                ));
+            }
+            if pipe.single != Some('v') {
+                s.push_str(&format!(
+                    "float4 ps{}(float4 i_pos : SV_Position) : SV_Target0 {{\n{}    return float4(0, 0, 0, 0);\n}}\n",
+                    k, ps
+                ));
+            }
         } else {
             let cs: String = pipe.uses.iter().map(|u| use_stmt(*u)).collect();
             s.push_str(&format!(
@@ -615,19 +862,44 @@ pub fn source(p: &Prog) -> String {
             ));
         }
     }
+    s.push_str(&late1);
     for (k, pipe) in p.pipes.iter().enumerate() {
+        let dflt_line = match pipe.dflt {
+            None => String::new(),
+            Some(d) => {
+                let text = if pipe.dspell.contains('k') {
+                    s.push_str(&format!("static const uint K_{} = {};\n", pipe.name, d));
+                    format!("K_{}", pipe.name)
+                } else if pipe.dspell.contains('h') {
+                    format!("0x{:x}", d)
+                } else {
+                    d.to_string()
+                };
+                format!("    DefaultBindGroup = {}{};\n", text, if pipe.dspell.contains('x') { " + 0" } else { "" })
+            }
+        };
         s.push_str(&format!("Pipeline {}\n{{\n", pipe.name));
+        if pipe.dspell.contains('f') {
+            s.push_str(&dflt_line);
+        }
         let k = owner(k);
-        if pipe.graphics {
+        if pipe.graphics && pipe.mesh {
+            s.push_str(&format!("    MeshShader = ms{};\n    PixelShader = ps{};\n", k, k));
+        } else if pipe.single == Some('v') {
+            s.push_str(&format!("    VertexShader = vs{};\n", k));
+        } else if pipe.single == Some('p') {
+            s.push_str(&format!("    PixelShader = ps{};\n", k));
+        } else if pipe.graphics {
             s.push_str(&format!("    VertexShader = vs{};\n    PixelShader = ps{};\n", k, k));
         } else {
             s.push_str(&format!("    ComputeShader = cs{};\n", k));
         }
-        if let Some(d) = pipe.dflt {
-            s.push_str(&format!("    DefaultBindGroup = {};\n", d));
+        if !pipe.dspell.contains('f') {
+            s.push_str(&dflt_line);
         }
         s.push_str("}\n");
     }
+    s.push_str(&late2);
     s
 }
 
@@ -653,15 +925,25 @@ pub enum Outcome {
     Panic(String),
 }
 
-pub fn compile(src: &str, tgt: Tgt, mode: &Mode) -> Outcome {
+pub fn compile(src: &str, cfg: Cfg, mode: &Mode) -> Outcome {
+    let tgt = cfg.tgt;
+    let defines: &[(&str, &str)] = if cfg.defines { &[("C06_EXTRA", "1"), ("g_unused", "g_other")] } else { &[] };
     let r = guard(|| {
         let mut inc = MemFiles(vec![("main.rssl".to_string(), src.to_string())]);
         let mut args = rssl::CompileArgs::new("main.rssl", &mut inc, tgt.target())
-            .support_buffer_address(tgt.buffer_address());
+            .support_buffer_address(tgt.buffer_address() || cfg.ba)
+            .validate_layout_consistency(cfg.layout)
+            .source_info(cfg.srcinfo)
+            .defines(defines);
         match mode {
             Mode::All => {}
             Mode::Named(n) => args = args.pipeline_name(Some(n.as_str())),
-            Mode::NoPipeline => args = args.no_pipeline_mode(),
+            Mode::NoPipeline => {
+                args = args.no_pipeline_mode();
+                if cfg.np_name {
+                    args = args.pipeline_name(Some("Q_none"));
+                }
+            }
         }
         match rssl::compile(args) {
             Ok(ps) => Ok(ps
@@ -767,7 +1049,9 @@ pub fn show_outcome(o: &Outcome) -> String {
             format!("ok:{}", v.join(" ## "))
         }
         Outcome::Err(e) => {
-            if e == "Shader does not contain a single pipeline" {
+            if e == "InvalidArgs" {
+                "err:invalid-args".into()
+            } else if e == "Shader does not contain a single pipeline" {
                 "err:none".into()
             } else if let Some(n) = e.strip_prefix("Shader does not contain the pipeline: ") {
                 format!("err:unknown:{}", n)
@@ -846,7 +1130,10 @@ pub fn invalid_annotation(res: &[Res]) -> bool {
             _ => false,
         };
         let attr_index = decl_attrs(&res[head_of(res, i)]).iter().any(|a| matches!(a, AttrText::VkBinding(..)));
-        (!r.joined && r.bad_attr.is_some() && !matches!(&r.decl, Decl::Other))
+        // the register class is looked up on the declaration's base type: an array typedef has none
+        (r.sp.typedef_arr && !anns.is_empty())
+            || r.sp.member_ann.is_some()
+            || (!r.joined && r.bad_attr.is_some() && !matches!(&r.decl, Decl::Other))
             || (matches!(&r.decl, Decl::CBuffer(_)) && r.bindless)
             || (matches!(&r.decl, Decl::StaticObject { .. }) && (r.extern_kw || r.static_ss))
             || anns.iter().any(|(a, wrong)| *a == Ann::Semantic || *wrong)
@@ -964,8 +1251,17 @@ fn expected_pipelines(p: &Prog, mode: &Mode) -> Result<Vec<u32>, &'static str> {
     }
 }
 
-fn oracle(p: &Prog, tgt: Tgt, mode: &Mode, o: &Outcome) -> String {
+fn oracle(p: &Prog, cfg: Cfg, mode: &Mode, o: &Outcome) -> String {
     let want = expected_pipelines(p, mode);
+    // buffer addresses exist on the Vulkan flavour only: the property knows four parameter sets, a fifth one
+    // (say DirectX register classes together with inline buffer addresses) must not come into being
+    let refused = matches!(o, Outcome::Err(e) if e == "InvalidArgs");
+    let Some(tgt) = cfg.eff() else {
+        return if refused { "ok".into() } else { "FAIL:buffer addresses requested on a target without them but compile did not refuse the arguments".into() };
+    };
+    if refused {
+        return "FAIL:compile refused arguments that name one of the four parameter sets".into();
+    }
     match o {
         Outcome::Panic(m) => format!("FAIL:panic {}", m),
         Outcome::Err(e) => {
@@ -1024,7 +1320,7 @@ fn oracle(p: &Prog, tgt: Tgt, mode: &Mode, o: &Outcome) -> String {
     }
 }
 
-pub fn run_case(tgt: Tgt, mode: &Mode, p: &Prog, out: &mut Out, hist: &mut Hist) {
+pub fn run_case(tgt: Cfg, mode: &Mode, p: &Prog, out: &mut Out, hist: &mut Hist) {
     let src = source(p);
     let o = compile(&src, tgt, mode);
     let obs = show_outcome(&o);
@@ -1048,7 +1344,8 @@ fn small_group(rng: &mut Rng) -> Option<u32> {
         4 => Some(0),
         5 => Some(1),
         6 => Some(rng.range(2, 3) as u32),
-        _ => Some(rng.range(0, 5) as u32),
+        // (a group above 3 is refused by the Metal exporter, cleanly)
+        _ => Some(if rng.chance(1, 8) { rng.range(6, 9) as u32 } else { rng.range(0, 5) as u32 }),
     }
 }
 
@@ -1139,6 +1436,7 @@ fn gen_joined(rng: &mut Rng, i: usize, h: &Res) -> Option<Res> {
         groupshared: false,
         static_ss: false,
         dup_kw: false,
+        sp: Spell::default(),
     };
     r.extern_kw = h.extern_kw;
     r.groupshared = h.groupshared;
@@ -1160,12 +1458,34 @@ fn gen_joined(rng: &mut Rng, i: usize, h: &Res) -> Option<Res> {
         }
     }
     gen_extra(rng, &mut r);
+    if r.decl_len().is_some() && rng.chance(1, 4) {
+        r.sp.len_expr = Some(rng.below(3) as u32);
+    }
     Some(r)
+}
+
+/// other ways to write the same thing (normalise keeps only what the declaration can carry)
+fn gen_spell(rng: &mut Rng, r: &mut Res) {
+    r.sp.const_kw = rng.chance(1, 6);
+    r.sp.typedefd = rng.chance(1, 6);
+    // a register annotation on an array typedef is rejected: mostly keep the two apart
+    r.sp.typedef_arr = rng.chance(1, 4) && (own_anns(r).is_empty() || rng.chance(1, 8));
+    if rng.chance(1, 4) {
+        r.sp.len_expr = Some(rng.below(3) as u32);
+    }
+    if rng.chance(1, 2) {
+        r.sp.other_form = rng.below(5) as u32;
+    }
+    r.sp.nested_ns = rng.chance(1, 3);
+    if rng.chance(1, 12) {
+        r.sp.late = 1 + rng.below(2) as u32;
+    }
 }
 
 fn gen_res(rng: &mut Rng, i: usize, sofar: &[Res]) -> Res {
     let set = small_group(rng);
-    let len = if rng.chance(1, 3) { Some(rng.range(1, 4) as u32) } else { None };
+    // now and then a long array: the next resource of the group must start right after it
+    let len = if rng.chance(1, 3) { Some(if rng.chance(1, 10) { *rng.pick(&[16u32, 255, 1000]) } else { rng.range(1, 4) as u32 }) } else { None };
     let mut r = Res {
         name: format!("g_r{}", i),
         decl: Decl::Other,
@@ -1184,6 +1504,7 @@ fn gen_res(rng: &mut Rng, i: usize, sofar: &[Res]) -> Res {
         groupshared: false,
         static_ss: false,
         dup_kw: false,
+        sp: Spell::default(),
     };
     // a further declarator of the previous declaration
     if !sofar.is_empty() && rng.chance(1, 4) {
@@ -1272,13 +1593,19 @@ fn gen_res(rng: &mut Rng, i: usize, sofar: &[Res]) -> Res {
             r.extern_kw = rng.chance(1, 60);
             r.static_ss = *kind == "SamplerState" && rng.chance(1, 20);
         }
-        Decl::CBuffer(_) => r.bindless = rng.chance(1, 60),
+        Decl::CBuffer(_) => {
+            r.bindless = rng.chance(1, 60);
+            if rng.chance(1, 40) {
+                r.sp.member_ann = Some(rng.below(2) as u32);
+            }
+        }
         _ => {}
     }
     if !matches!(&r.decl, Decl::Other) && rng.chance(1, 90) {
         r.bad_attr = Some(rng.below(BAD_ATTRS.len() as u64) as u32);
     }
     gen_extra(rng, &mut r);
+    gen_spell(rng, &mut r);
     r
 }
 
@@ -1287,6 +1614,7 @@ fn gen_pipes(rng: &mut Rng, nres: usize, min_pipes: usize) -> Vec<Pipe> {
     let mut pipes = Vec::new();
     // default groups: mostly pairwise different, so that a layout leaking from one pipeline to the next shows
     let first = rng.below(4) as u32;
+    let all_mesh = rng.chance(1, 8);
     for k in 0..np {
         let dflt = match rng.below(6) {
             0 => None,
@@ -1294,13 +1622,40 @@ fn gen_pipes(rng: &mut Rng, nres: usize, min_pipes: usize) -> Vec<Pipe> {
             _ => Some((first + k as u32) % 4),
         };
         let uses: Vec<usize> = (0..nres).filter(|_| rng.chance(1, 2)).collect();
-        let mut pipe = Pipe { name: format!("P{}", k), dflt, graphics: rng.chance(1, 3), uses, share: None };
+        // names that are prefixes / extensions / other-case spellings of each other: a lookup by name must compare whole names
+        let mut name = match rng.below(8) {
+            0 => "P".to_string(),
+            1 => format!("P{}0", k),
+            2 => format!("p{}", k),
+            3 => format!("P0{}", k),
+            4 => format!("P{}_x", k),
+            _ => format!("P{}", k),
+        };
+        if pipes.iter().any(|q: &Pipe| q.name == name) {
+            name = format!("P{}", k);
+        }
+        if pipes.iter().any(|q: &Pipe| q.name == name) {
+            name = format!("Q{}", k);
+        }
+        let mut dspell = String::new();
+        for c in ['f', 'x', 'h', 'k'] {
+            if rng.chance(1, 6) {
+                dspell.push(c);
+            }
+        }
+        // a file with a mesh entry point: every pipeline is mesh + pixel (the Metal exporter refuses to build another
+        // kind of pipeline from a file that calls SetMeshOutputCounts: InvalidPipelineForMeshIntrinsic)
+        let graphics = all_mesh || rng.chance(1, 3);
+        let single = if graphics && !all_mesh && rng.chance(1, 4) { Some(*rng.pick(&['v', 'p'])) } else { None };
+        let mut pipe = Pipe { name, dflt, graphics, uses, share: None, dspell, mesh: all_mesh, single };
         // now and then the same entry points as an earlier pipeline (with, mostly, another default group)
         if k > 0 && rng.chance(1, 4) {
             let j = rng.below(k as u64) as usize;
             let earlier: &Pipe = &pipes[j];
             if earlier.share.is_none() {
                 pipe.graphics = earlier.graphics;
+                pipe.mesh = earlier.mesh;
+                pipe.single = earlier.single;
                 pipe.uses = Vec::new();
                 pipe.share = Some(j);
             }
@@ -1354,6 +1709,7 @@ pub fn matrix_progs(rng: &mut Rng) -> Vec<Prog> {
                 groupshared: false,
                 static_ss: false,
                 dup_kw: false,
+                sp: Spell::default(),
             };
             let alen = |rng: &mut Rng| if rng.chance(1, 3) { Some(rng.range(1, 3) as u32) } else { None };
             let mut head = blank("g_a", Decl::Global { set: None, ss: false, kind: Some(kind), len: alen(rng) });
@@ -1397,8 +1753,103 @@ pub fn matrix_progs(rng: &mut Rng) -> Vec<Prog> {
             normalise(&mut res);
             let n = res.len();
             let pipes = vec![
-                Pipe { name: "P0".into(), dflt: Some(d0), graphics: false, uses: (0..n).collect(), share: None },
-                Pipe { name: "P1".into(), dflt: if d1 == 0 && rng.chance(1, 2) { None } else { Some(d1) }, graphics: rng.chance(1, 3), uses: (0..n).filter(|_| rng.chance(1, 2)).collect(), share: None },
+                Pipe { name: "P0".into(), dflt: Some(d0), graphics: false, uses: (0..n).collect(), share: None, dspell: String::new(), mesh: false, single: None },
+                Pipe { name: "P1".into(), dflt: if d1 == 0 && rng.chance(1, 2) { None } else { Some(d1) }, graphics: rng.chance(1, 3), uses: (0..n).filter(|_| rng.chance(1, 2)).collect(), share: None, dspell: String::new(), mesh: false, single: None },
+            ];
+            v.push(Prog { res, pipes });
+        }
+    }
+    v
+}
+
+/// The spelling matrix: kind x way of writing the same declaration (const, typedef, array typedef, the array length as
+/// a constant expression / a named constant, nested namespace, declared after the functions / after the pipelines,
+/// everything together, other kinds of root definitions in between), one plain resource of the same group before and
+/// after it: the slots must be what the plain spelling gives.
+pub fn spelling_progs(rng: &mut Rng, all_kinds: bool) -> Vec<Prog> {
+    let mut v = Vec::new();
+    let blank = |name: &str, decl: Decl| Res {
+        name: name.to_string(),
+        decl,
+        how: How::Attr,
+        lang_index: None,
+        bindless: false,
+        ns: false,
+        unsized_arr: false,
+        dim2: false,
+        joined: false,
+        extra: Vec::new(),
+        pre_group: None,
+        wrong_class: false,
+        bad_attr: None,
+        extern_kw: false,
+        groupshared: false,
+        static_ss: false,
+        dup_kw: false,
+        sp: Spell::default(),
+    };
+    let kinds: Vec<&'static str> = if all_kinds {
+        KINDS.iter().map(|k| k.0).collect()
+    } else {
+        (0..5).map(|_| rng.pick(KINDS).0).collect()
+    };
+    for kind in kinds {
+        for form in 0..11 {
+            let set = *rng.pick(&[None, None, Some(1), Some(2)]);
+            let plain = *rng.pick(&["Texture2D", "RWStructuredBuffer", "ByteAddressBuffer", "SamplerState", "BufferAddress"]);
+            let before = blank("g_p", Decl::Global { set, ss: false, kind: Some(plain), len: if rng.chance(1, 2) { Some(2) } else { None } });
+            let mut after = blank("g_q", Decl::Global { set, ss: false, kind: Some(plain), len: None });
+            let needs_len = matches!(form, 2..=5 | 9);
+            let len = if needs_len || rng.chance(1, 3) { Some(rng.range(1, 3) as u32) } else { None };
+            let mut mid = blank("g_m", Decl::Global { set, ss: false, kind: Some(kind), len });
+            mid.how = *rng.pick(&[How::Attr, How::VkBinding]);
+            if mid.how == How::VkBinding && set.is_some() {
+                mid.lang_index = Some(rng.below(8) as u32);
+            }
+            let mut res = Vec::new();
+            match form {
+                0 => mid.sp.const_kw = true,
+                1 => mid.sp.typedefd = true,
+                2 => mid.sp.typedef_arr = true,
+                3 | 4 | 5 => mid.sp.len_expr = Some(form - 3),
+                6 => {
+                    mid.ns = true;
+                    mid.sp.nested_ns = true;
+                }
+                7 | 8 => {
+                    mid.sp.late = form - 6;
+                    after.sp.late = form - 6;
+                }
+                9 => {
+                    mid.sp = Spell { const_kw: true, typedefd: true, typedef_arr: true, len_expr: Some(2), other_form: 0, nested_ns: true, late: 0, member_ann: None };
+                    mid.ns = true;
+                    mid.extern_kw = true;
+                }
+                _ => {}
+            }
+            res.push(before);
+            if form == 10 {
+                for (n, f) in [("S1", 1), ("S2", 2)] {
+                    let mut o = blank(n, Decl::Other);
+                    o.sp.other_form = f;
+                    res.push(o);
+                }
+            }
+            res.push(mid);
+            if form == 10 {
+                for (n, f) in [("S3", 3), ("S4", 4)] {
+                    let mut o = blank(n, Decl::Other);
+                    o.sp.other_form = f;
+                    res.push(o);
+                }
+            }
+            res.push(after);
+            normalise(&mut res);
+            let n = res.len();
+            let d0 = rng.below(3) as u32;
+            let pipes = vec![
+                Pipe { name: "P0".into(), dflt: Some(d0), graphics: false, uses: (0..n).collect(), share: None, dspell: String::new(), mesh: false, single: None },
+                Pipe { name: "P1".into(), dflt: Some((d0 + 1) % 3), graphics: rng.chance(1, 3), uses: (0..n).filter(|_| rng.chance(1, 2)).collect(), share: None, dspell: String::new(), mesh: false, single: None },
             ];
             v.push(Prog { res, pipes });
         }
@@ -1411,6 +1862,15 @@ pub fn run_prog(p: &Prog, rng: &mut Rng, out: &mut Out, hist: &mut Hist) {
     hist.add(&format!("e2e:pipes={}", p.pipes.len()));
     if p.pipes.iter().any(|x| x.share.is_some()) {
         hist.add("e2e:shared-entry-points");
+    }
+    for x in &p.pipes {
+        hist.add(if x.single.is_some() { "e2e:pipe:single-graphics-stage" } else if x.mesh { "e2e:pipe:mesh+pixel" } else if x.graphics { "e2e:pipe:vertex+pixel" } else { "e2e:pipe:compute" });
+        if !x.dspell.is_empty() && x.dflt.is_some() {
+            hist.add("e2e:pipe:default-group-spelled-otherwise");
+        }
+        if x.name != format!("P{}", p.pipes.iter().position(|y| y.name == x.name).unwrap_or(0)) {
+            hist.add("e2e:pipe:unusual-name");
+        }
     }
     let distinct: std::collections::BTreeSet<u32> = p.pipes.iter().map(|x| x.dflt.unwrap_or(0)).collect();
     hist.add(&format!("e2e:distinct-default-groups={}", distinct.len()));
@@ -1461,15 +1921,57 @@ pub fn run_prog(p: &Prog, rng: &mut Rng, out: &mut Out, hist: &mut Hist) {
     if invalid_annotation(&p.res) {
         hist.add("e2e:program-with-an-ill-formed-annotation");
     }
+    for r in &p.res {
+        if r.sp.const_kw && !r.joined { hist.add("e2e:spell:const"); }
+        if r.sp.typedefd && !r.joined { hist.add("e2e:spell:typedef"); }
+        if r.sp.typedef_arr { hist.add("e2e:spell:typedef-array"); }
+        if let Some(n) = r.sp.len_expr { hist.add(&format!("e2e:spell:length-expression-{}", n)); }
+        if r.sp.other_form > 0 { hist.add(&format!("e2e:spell:other-form-{}", r.sp.other_form)); }
+        if r.sp.nested_ns { hist.add("e2e:spell:nested-namespace"); }
+        if r.sp.late > 0 && !r.joined { hist.add(&format!("e2e:spell:declared-late-{}", r.sp.late)); }
+    }
     let unknown = rng.chance(1, 6);
-    for tgt in ALL_TARGETS {
+    for t in ALL_TARGETS {
+        // now and then other compile() options: none of them may move a slot; buffer addresses on every target
+        let mut tgt = Cfg::plain(t);
+        if rng.chance(1, 3) {
+            tgt.ba = rng.chance(1, 3);
+            tgt.layout = rng.chance(1, 3);
+            tgt.srcinfo = rng.chance(1, 3);
+            tgt.defines = rng.chance(1, 3);
+            tgt.np_name = rng.chance(1, 3);
+        }
+        hist.add(&format!("e2e:cfg:{}", t.name()));
+        for (on, name) in [(tgt.ba, "buffer-address-forced"), (tgt.layout, "validate-layout"), (tgt.srcinfo, "source-info"), (tgt.defines, "defines"), (tgt.np_name, "name-in-no-pipeline-mode")] {
+            if on {
+                hist.add(&format!("e2e:opt:{}", name));
+            }
+        }
+        if tgt.eff().is_none() {
+            hist.add("e2e:cfg:buffer-address-on-a-target-without");
+        }
         run_case(tgt, &Mode::All, p, out, hist);
         for pipe in &p.pipes {
             run_case(tgt, &Mode::Named(pipe.name.clone()), p, out, hist);
         }
         if unknown {
-            run_case(tgt, &Mode::Named("Nope".into()), p, out, hist);
+            // an unknown name; now and then a proper prefix / an extension of an existing name
+            let mut n = "Nope".to_string();
+            if let Some(first) = p.pipes.first() {
+                let c = match rng.below(3) {
+                    0 => format!("{}0", first.name),
+                    1 => first.name[..first.name.len() - 1].to_string(),
+                    _ => n.clone(),
+                };
+                if !c.is_empty() && !p.pipes.iter().any(|q| q.name == c) {
+                    n = c;
+                }
+            }
+            run_case(tgt, &Mode::Named(n), p, out, hist);
         }
-        run_case(tgt, &Mode::NoPipeline, p, out, hist);
+        // (no-pipeline mode of a file with a mesh entry point is refused by the Metal exporter)
+        if !(t == Tgt::Msl && p.pipes.iter().any(|x| x.mesh)) {
+            run_case(tgt, &Mode::NoPipeline, p, out, hist);
+        }
     }
 }
